@@ -997,8 +997,7 @@ Proof.
   destruct (run_step c i m tp Hm Hns h s0 s10 s outs HRP0 R)
     as [Hle (ext & s1 & outs1 & Hsub & HR & HP & Ho & Hf)].
   exists (ext0 ++ ext). split.
-  - change (map tp (seq 0 (pos s))) with (map tp (seq 0 (pos s))).
-    replace (map tp (seq 0 (pos s))) with (seg tp 0 (pos s)) by (unfold seg; rewrite Nat.sub_0_r; reflexivity).
+  - replace (map tp (seq 0 (pos s))) with (seg tp 0 (pos s)) by (unfold seg; rewrite Nat.sub_0_r; reflexivity).
     rewrite (seg_app tp 0 (pos s0) (pos s)) by lia. apply sublist_app; assumption.
   - intros tp1 Hst. apply starts_with_at in Hst. apply starts_at_app in Hst. destruct Hst as [Hst0 Hst1].
     exists s10, s1, outs1. split; [apply Hf0; exact Hst0|]. split.
@@ -1023,3 +1022,117 @@ Proof.
 Qed.
 
 Print Assumptions solo_equals_combined_prob.
+
+(** ** sanity (non-vacuity): a probabilistic machine (probability-1/2
+    transitions, Uniform[0,100] timeout) between two probabilistic neighbours,
+    three calls; the 24 draws of the combined run are interleaved, machine 1
+    owns the draws at positions 2, 5, 6, 9, 10, 17, 18, 23 *)
+Definition pm_state : state :=
+  mkstate (Some (SendPadding false false (mkdist (Uniform 0 F100) 0 F100) None)) None None
+          [None; None; None; Some [(0, HALF32)]; Some [(0, HALF32)]; None; None; None; None; None; None; None; None].
+Definition pm_machine : machine := mkmachine 1000 0 0 0 [pm_state].
+Definition pn_cfg : cfg := mkcfg [nb_machine; pm_machine; nb_machine] 0 0 vclock.
+Definition pn_hist : list (list trigger_event * Z) :=
+  [([TENormalSent; TEPaddingSent 1], 5%Z); ([TENormalSent; TEPaddingSent 0; TEBlockingBegin 1], 9%Z);
+   ([TETunnelSent; TENormalSent; TEPaddingSent 2; TEPaddingSent 1; TEBlockingEnd], 12%Z)].
+
+(** final tape position and the returned actions of a whole life *)
+Definition run_info (c : cfg) (tp : tape) (h : list (list trigger_event * Z)) : option (nat * list (list taction)) :=
+  match fnew c tp 0%Z with
+  | Ok s0 => match run c tp s0 h with Ok (s, outs) => Some (pos s, outs) | _ => None end
+  | _ => None
+  end.
+
+Lemma run_info_ok : forall c tp h p outs, run_info c tp h = Some (p, outs) ->
+  exists s0 s, fnew c tp 0%Z = Ok s0 /\ run c tp s0 h = Ok (s, outs) /\ pos s = p.
+Proof.
+  unfold run_info; intros c tp h p outs H.
+  destruct (fnew c tp 0%Z) as [s0| |]; try discriminate H.
+  destruct (run c tp s0 h) as [[s o]| |] eqn:R; try discriminate H.
+  inversion H; subst. exists s0, s. auto.
+Qed.
+
+Fixpoint sublist_b (l1 l2 : list N) : bool :=
+  match l2 with
+  | [] => match l1 with [] => true | _ => false end
+  | y :: l2' =>
+      match l1 with
+      | [] => true
+      | x :: l1' => if x =? y then sublist_b l1' l2' else sublist_b l1 l2'
+      end
+  end.
+
+Lemma sublist_b_sound : forall l2 l1, sublist_b l1 l2 = true -> sublist l1 l2.
+Proof.
+  induction l2 as [|y l2 IH]; intros l1 H; cbn [sublist_b] in H.
+  - destruct l1; [apply sl_nil|discriminate H].
+  - destruct l1 as [|x l1]; [apply sl_nil|].
+    destruct (N.eqb_spec x y) as [->|Hne]; [apply sl_take|apply sl_skip]; apply IH; exact H.
+Qed.
+
+(** machine 1 is probabilistic (not covered by [solo_equals_combined_full]) *)
+Example pn_hyps : (no_signal_b pn_cfg, valid_cfg pn_cfg, det_machine_b pm_machine) = (true, true, false).
+Proof. vm_compute. reflexivity. Qed.
+
+(** the combined run consumes 24 tape entries; machine 1 misses its first
+    probability-1/2 transition and then draws the timeouts 7, 22, 100 *)
+Example pn_combined : run_info pn_cfg sn_tp pn_hist =
+  Some (24%nat,
+        [[TSendPadding 0 1 false false; TSendPadding 1 7 false false; TSendPadding 2 4 false false];
+         [TSendPadding 0 72 false false; TSendPadding 1 22 false false; TSendPadding 2 40 false false];
+         [TSendPadding 0 100 false false; TSendPadding 1 100 false false; TSendPadding 2 100 false false]]).
+Proof. vm_compute. reflexivity. Qed.
+
+(** machine 1's own draws *)
+Definition pn_l : list N := map sn_tp [2; 5; 6; 9; 10; 17; 18; 23]%nat.
+
+Example pn_l_sub : sublist pn_l (map sn_tp (seq 0 24)).
+Proof. apply sublist_b_sound. vm_compute. reflexivity. Qed.
+
+(** a tape that carries these draws and nothing else *)
+Definition pn_tp1 : tape := fun q => nth q pn_l 0.
+
+Example pn_tp1_starts : tape_starts_with pn_tp1 pn_l.
+Proof. intros q _. reflexivity. Qed.
+
+(** alone on that tape the machine consumes exactly the 8 draws and returns
+    the same actions *)
+Example pn_solo : run_info (solo_cfg pn_cfg pm_machine) pn_tp1 (proj_hist 1 pn_hist) =
+  Some (8%nat, [[TSendPadding 0 7 false false]; [TSendPadding 0 22 false false]; [TSendPadding 0 100 false false]]).
+Proof. vm_compute. reflexivity. Qed.
+
+(** the draws matter: with the first own draw replaced (k/2^23 < 1/2) the
+    solo machine takes its first transition and behaves differently *)
+Example pn_solo_other : run_info (solo_cfg pn_cfg pm_machine) (fun q => match q with O => 0 | _ => pn_tp1 q end)
+                                 (proj_hist 1 pn_hist) <>
+  Some (8%nat, [[TSendPadding 0 7 false false]; [TSendPadding 0 22 false false]; [TSendPadding 0 100 false false]]).
+Proof. vm_compute. discriminate. Qed.
+
+(** the theorem on this instance: the hypotheses hold, machine 1 returns an
+    action in every call, and the list of draws it provides is not empty *)
+Example pn_instance : exists s0 s outs l,
+  fnew pn_cfg sn_tp 0%Z = Ok s0 /\ run pn_cfg sn_tp s0 pn_hist = Ok (s, outs) /\
+  map (acts_of 1) outs =
+    [[TSendPadding 1 7 false false]; [TSendPadding 1 22 false false]; [TSendPadding 1 100 false false]] /\
+  l <> [] /\
+  sublist l (map sn_tp (seq 0 (pos s))) /\
+  forall tp1, tape_starts_with tp1 l ->
+    exists s10 s1 outs1,
+      fnew (solo_cfg pn_cfg pm_machine) tp1 0%Z = Ok s10 /\
+      run (solo_cfg pn_cfg pm_machine) tp1 s10 (proj_hist 1 pn_hist) = Ok (s1, outs1) /\
+      pos s1 = length l /\
+      map (acts_of 1) outs = map (map (rename_to 1)) outs1.
+Proof.
+  destruct (run_info_ok _ _ _ _ _ pn_combined) as (s0 & s & F & R & P).
+  destruct (solo_equals_combined_prob pn_cfg 1 pm_machine sn_tp 0%Z pn_hist s0 s _ eq_refl eq_refl F R)
+    as (l & Hsub & Hl).
+  exists s0, s. eexists. exists l. split; [exact F|]. split; [exact R|]. split; [reflexivity|].
+  split; [|split; [exact Hsub|exact Hl]].
+  intros ->.
+  destruct (Hl pn_tp1) as (s10 & s1 & outs1 & F1 & R1 & P1 & _); [intros q Hq; inversion Hq|].
+  destruct (run_info_ok _ _ _ _ _ pn_solo) as (s10' & s1' & F1' & R1' & P1').
+  rewrite F1 in F1'. inversion F1'; subst s10'. rewrite R1 in R1'. inversion R1'; subst s1'.
+  cbn [length] in P1. rewrite P1 in P1'. discriminate P1'.
+Qed.
+
+Print Assumptions pn_instance.
